@@ -8,10 +8,8 @@ A step observation is a flat list of integers (harness/ds_trrel/src/*.rs, TrRelM
   merge / r : observations of delta then of total; per version, per view, (bit mask of the tuples served,
               number of tuples served) for index_get over every key of the domain and for iter_all, + is_empty."""
 import concurrent.futures as cf
-import hashlib
 import itertools
 import os
-import shutil
 import subprocess
 
 from . import lib
@@ -35,30 +33,24 @@ def views_of(suite):
     return TER_FWD
 
 
+def view_groups(suite):
+    """the views come in groups, each followed by the len_estimate panic flags of its views"""
+    if suite == "bin":
+        return [BIN_VIEWS]
+    if suite == "ter":
+        return [TER_FWD, TER_REV]
+    return [TER_FWD]
+
+
 def version_len(suite):
-    return sum(2 * len(r) + 1 for _, r in views_of(suite))
+    return sum(2 * len(r) + 2 for _, r in views_of(suite))
 
 
 # ------------------------------------------------------------------ harness
 
 def harness_build():
-    """build harness/ds_trrel against lib.REPO (a scratch copy of the crate when VERIF_REPO points elsewhere)"""
-    if lib.REPO == "/repo":
-        return lib.harness_build("ds_trrel")
-    tag = hashlib.sha1(lib.REPO.encode()).hexdigest()[:8]
-    d = os.path.join(lib.BUILD, "harness_alt", "ds_trrel_" + tag)
-    src = os.path.join(lib.VERIF, "harness", "ds_trrel")
-    if os.path.exists(d):
-        shutil.rmtree(d)
-    shutil.copytree(src, d, ignore=shutil.ignore_patterns("Cargo.lock"))
-    ct = open(os.path.join(d, "Cargo.toml")).read().replace('"/repo/', '"%s/' % lib.REPO)
-    open(os.path.join(d, "Cargo.toml"), "w").write(ct)
-    tdir = os.path.join(lib.BUILD, "target_alt_" + tag)
-    open(os.path.join(d, ".cargo", "config.toml"), "w").write('[net]\noffline = true\n[build]\ntarget-dir = "%s"\n' % tdir)
-    rc, out = lib.cargo_build(d)
-    if rc:
-        return None, out
-    return os.path.join(tdir, "debug", "ds_trrel"), out
+    """build harness/ds_trrel against lib.REPO (lib.harness_build redirects the path dependencies for VERIF_REPO)"""
+    return lib.harness_build("ds_trrel")
 
 
 def case_line(c):
@@ -203,14 +195,18 @@ def popcount(m):
 def decode_version(suite, nums):
     """-> {view: {reading: (mask, count)}, view+'_empty': flag}"""
     out, p = {}, 0
-    for name, readings in views_of(suite):
-        d = {}
-        for r in readings:
-            d[r] = (nums[p], nums[p + 1])
-            p += 2
-        d["is_empty"] = nums[p]
-        p += 1
-        out[name] = d
+    for group in view_groups(suite):
+        for name, readings in group:
+            d = {}
+            for r in readings:
+                d[r] = (nums[p], nums[p + 1])
+                p += 2
+            d["is_empty"] = nums[p]
+            p += 1
+            out[name] = d
+        for name, _ in group:
+            out[name]["len_estimate_panics"] = nums[p]
+            p += 1
     assert p == len(nums), (p, len(nums))
     return out
 
@@ -267,6 +263,7 @@ def closure(c, ins):
 
 F3 = "trrel_cycle_reflexive_missing"
 F4 = "trrel_ternary_delta_reverse_views"
+F11 = "trrel_ternary_ind12_len_estimate_div_zero"
 
 
 def spec_check(c, steps):
@@ -321,10 +318,12 @@ def spec_check(c, steps):
         def add(law, version, view, reading, missing, extra):
             missing, extra = sorted(missing), sorted(extra)
             klass = None
-            if not extra and missing and all(refl_not_inserted(t) for t in missing):
+            # F3: the tuple is (x,x), was not inserted, and is served by NO view (absent from total and delta)
+            lost = [t for t in missing if refl_not_inserted(t) and t not in T and t not in D]
+            rest = [t for t in missing if t not in lost]
+            if not extra and missing and not rest:
                 klass = F3
-            elif (not extra and missing and version == "delta" and view in ("i1", "i2", "i12") and c["suite"] == "ter"):
-                rest = [t for t in missing if not refl_not_inserted(t)]
+            elif (not extra and rest and version == "delta" and view in ("i1", "i2", "i12") and c["suite"] == "ter"):
                 raw1 = {(t[0], t[1]) for t in new_round}      # (key, column-1 value) pairs that entered `new` this round
                 raw2 = {(t[0], t[2]) for t in new_round}
 
@@ -332,6 +331,7 @@ def spec_check(c, steps):
                     a = (t[0], t[1]) not in raw1
                     b = (t[0], t[2]) not in raw2
                     return a if view == "i1" else b if view == "i2" else (a or b)
+                # F4: the tuple IS in delta (its full view serves it) but its column value did not enter `new` in the last round
                 if all(t in D and unreachable(t) for t in rest):
                     klass = F4
             fails.append(dict(step=i, law=law, version=version, view=view, reading=reading, missing=missing, extra=extra, klass=klass,
@@ -360,6 +360,11 @@ def spec_check(c, steps):
                             add("P4 delta view serves at least the added part, at most the closure", version, view, r, lo - V, V - hi)
                         if view == "full" and r == "contains" and V != D:
                             add("P5 contains_key(delta)", version, view, r, D - V, V - D)
+                if o[version][view]["len_estimate_panics"]:
+                    empty_map = not content
+                    fails.append(dict(step=i, law="len_estimate does not panic", version=version, view=view, reading="len_estimate", missing=[], extra=[],
+                                      klass=F11 if (view == "i12" and empty_map) else None,
+                                      what="after step %d: len_estimate() of %s view %s panics (%s version)" % (i, version, view, "empty" if empty_map else "non-empty")))
                 if o[version][view]["is_empty"] and any(o[version][view][r][0] for r in readings):
                     fails.append(dict(step=i, law="is_empty is definite", version=version, view=view, reading="is_empty", missing=[], extra=[], klass=None,
                                       what="after step %d: %s view %s reports is_empty but serves tuples" % (i, version, view)))
